@@ -46,16 +46,17 @@ def load_corpus(pid):
     return cases
 
 
-def shrink(case, still_fails, budget=150):
+def shrink(case, still_fails, budget=80, seconds=40):
     """greedy shrinking: try dropping / decrementing integers while the
-    failure (as judged by `still_fails`) persists"""
+    failure (as judged by `still_fails`) persists; bounded in tries and time"""
     cur = list(case)
     tries = 0
     changed = True
-    while changed and tries < budget:
+    t_end = time.time() + seconds
+    while changed and tries < budget and time.time() < t_end:
         changed = False
         for i in range(len(cur) - 1, 0, -1):
-            if tries >= budget:
+            if tries >= budget or time.time() > t_end:
                 break
             for cand in (cur[:i] + cur[i + 1:], cur[:i] + [cur[i] // 2] + cur[i + 1:] if cur[i] > 0 else None):
                 if cand is None or cand == cur:
